@@ -8,7 +8,10 @@ statements below are about the comparisons that are in the source *now*.  All st
 every capacity (0 included) and every history of applicable operations `acquire h | drop g |
 available h w | clone h | total h | dropHandle h | debug h | debugGuard g`
 (`run (init cap) ops = some (s, os)`: `s` is the state after `ops`, `os` the observations); `acquire` is
-never refused, so histories go above the capacity.
+never refused, so histories go above the capacity.  A guard dropped while the thread unwinds from a
+caught panic is `drop g` (a drop is a drop).  Waker ids `≥ 4` are inline-polling wakers: woken by a
+guard drop they re-enter the counter from inside `wake()` (`Counter.release`), and the drop's
+observation carries what they saw.
 
 The reference notions are kernel-free: "number of live guards" is `s.guards.length` (a guard id is
 appended by `acquire` and erased by `drop`), and `specOf cap ops` computes from the history alone the
@@ -45,7 +48,7 @@ theorem total_eq_live (cap : Nat) (ops : List Op) (s s' : Sys) (os : List Obs) (
   · simp at hs
 
 example : (run (init 0) [.acquire 0, .clone 0, .acquire 1, .drop 0, .total 1]).map (·.2) =
-    some [.guard 0, .handle 1, .guard 1, .dropped none, .total 1] := by decide
+    some [.guard 0, .handle 1, .guard 1, .dropped none none, .total 1] := by decide
 
 /-- **`Counter::get` never refuses and every guard counts — also at and above the capacity** (the
 counter only gates through `available`): through any live handle a guard is handed out, and the count
@@ -65,10 +68,10 @@ theorem acquire_always_counts (cap : Nat) (ops : List Op) (s : Sys) (os : List O
 last one goes; capacity 0: guards are counted all the same and the gate never opens -/
 example : (run (init 1) [.acquire 0, .acquire 0, .acquire 0, .total 0, .available 0 2, .drop 2, .total 0,
       .available 0 3, .drop 0, .available 0 3, .drop 1, .available 0 3]).map (·.2) =
-    some [.guard 0, .guard 1, .guard 2, .total 3, .avail false, .dropped none, .total 2, .avail false,
-      .dropped none, .avail false, .dropped (some 3), .avail true] := by decide
+    some [.guard 0, .guard 1, .guard 2, .total 3, .avail false, .dropped none none, .total 2, .avail false,
+      .dropped none none, .avail false, .dropped (some 3) none, .avail true] := by decide
 example : (run (init 0) [.acquire 0, .acquire 0, .total 0, .drop 0, .drop 1, .total 0, .available 0 1]).map (·.2) =
-    some [.guard 0, .guard 1, .total 2, .dropped none, .dropped none, .total 0, .avail false] := by decide
+    some [.guard 0, .guard 1, .total 2, .dropped none none, .dropped none none, .total 0, .avail false] := by decide
 
 /-- **The count is shared by all clones**: which live handle an operation goes through is immaterial. -/
 theorem clones_share (s : Sys) (h h' : Nat) (w : WakerId) (hh : s.hasHandle h = true) (hh' : s.hasHandle h' = true) :
@@ -77,7 +80,7 @@ theorem clones_share (s : Sys) (h h' : Nat) (w : WakerId) (hh : s.hasHandle h = 
   simp [step, hh, hh']
 
 example : (run (init 1) [.clone 0, .acquire 1, .available 0 2, .total 0, .total 1, .drop 0]).map (·.2) =
-    some [.handle 1, .guard 0, .avail false, .total 1, .total 1, .dropped (some 2)] := by decide
+    some [.handle 1, .guard 0, .avail false, .total 1, .total 1, .dropped (some 2) none] := by decide
 
 /-- Dropping a `Counter` handle changes nothing but the set of handles: the guards stay alive and
 counted, the parked waker stays registered (so `release_wakes`, which holds for every history, also
@@ -95,7 +98,7 @@ theorem handle_drop_changes_nothing_else (s s' : Sys) (h : Nat) (o : Obs) (hs : 
   · simp at hs
 
 example : (run (init 1) [.acquire 0, .clone 0, .available 0 3, .dropHandle 0, .total 1, .drop 0, .available 1 2]).map (·.2) =
-    some [.guard 0, .handle 1, .avail false, .handleDropped, .total 1, .dropped (some 3), .avail true] := by decide
+    some [.guard 0, .handle 1, .avail false, .handleDropped, .total 1, .dropped (some 3) none, .avail true] := by decide
 example : (run (init 1) [.dropHandle 0, .total 0]) = none := by decide
 
 /-- `Debug` of a `Counter` handle or of a `CounterGuard` shows the number of live guards and the
@@ -123,38 +126,93 @@ theorem spec_live_eq (cap : Nat) (ops : List Op) (s : Sys) (os : List Obs)
 (and not woken since) if it takes the number of live guards from `cap` to `cap - 1`, and wakes
 nobody otherwise. -/
 theorem release_wakes (cap : Nat) (ops : List Op) (s s' : Sys) (os : List Obs) (g : Nat)
-    (wk : Option WakerId) (hr : run (init cap) ops = some (s, os))
-    (hs : step s (.drop g) = some (s', .dropped wk)) :
+    (wk : Option WakerId) (saw : Option (Nat × Bool)) (hr : run (init cap) ops = some (s, os))
+    (hs : step s (.drop g) = some (s', .dropped wk saw)) :
     wk = if s.guards.length = cap then (specOf cap ops).pend else none := by
   obtain ⟨h1, h2, _, h4⟩ := rel_reach hr
   simp only [step] at hs; split at hs
   · simp only [Option.some.injEq, Prod.mk.injEq, Obs.dropped.injEq] at hs
-    obtain ⟨_, hw⟩ := hs; subst hw
+    obtain ⟨_, hw, _⟩ := hs; subst hw
     rw [dec_eq]; simp only [h1, h2]
     by_cases hc : s.guards.length = cap <;> simp [hc, h4]
   · simp at hs
 
-example : (run (init 1) [.acquire 0, .available 0 5, .available 0 6, .drop 0]).map (·.2) =
-    some [.guard 0, .avail false, .avail false, .dropped (some 6)] := by decide
+example : (run (init 1) [.acquire 0, .available 0 1, .available 0 2, .drop 0]).map (·.2) =
+    some [.guard 0, .avail false, .avail false, .dropped (some 2) none] := by decide
 example : (specOf 1 [.acquire 0, .available 0 5, .available 0 6]).pend = some 6 := by decide
 
 /-- … and exactly once: after a releasing drop, a later drop wakes somebody only if `available` was
 asked (and answered "unavailable") again in between. -/
 theorem release_wakes_once (cap : Nat) (ops mid : List Op) (g g' : Nat) (s : Sys) (os : List Obs)
-    (wk : Option WakerId) (s' : Sys)
+    (wk : Option WakerId) (saw : Option (Nat × Bool)) (s' : Sys)
     (hrel : (specOf cap ops).live = cap)
     (hmid : ∀ op ∈ mid, op.isAvailable = false)
     (hr : run (init cap) (ops ++ [.drop g] ++ mid) = some (s, os))
-    (hs : step s (.drop g') = some (s', .dropped wk)) : wk = none := by
-  rw [release_wakes cap _ s s' os g' wk hr hs]
+    (hs : step s (.drop g') = some (s', .dropped wk saw)) : wk = none := by
+  rw [release_wakes cap _ s s' os g' wk saw hr hs]
   split
   · rw [specOf_append, specOf_append]
     apply pend_none_of_no_avail _ _ _ _ hmid
     simp [Spec.step, hrel]
   · rfl
 
+example : (run (init 1) [.acquire 0, .available 0 3, .drop 0, .acquire 0, .drop 1]).map (·.2) =
+    some [.guard 0, .avail false, .dropped (some 3) none, .guard 1, .dropped none none] := by decide
 example : (run (init 1) [.acquire 0, .available 0 5, .drop 0, .acquire 0, .drop 1]).map (·.2) =
-    some [.guard 0, .avail false, .dropped (some 5), .guard 1, .dropped none] := by decide
+    some [.guard 0, .avail false, .dropped (some 5) (some (0, true)), .guard 1, .dropped none none] := by decide
+
+/-- **The wake-up comes after the decrement.**  A task woken by a guard drop whose waker polls inline
+(re-enters the counter from inside `wake()`: ids `≥ 4`) finds the slot already freed: it reads
+`total() = cap - 1 < cap`, is answered *available*, and therefore is not registered again — after the
+drop nobody is parked.  A counting waker observes nothing (`saw = none`). -/
+theorem woken_task_sees_freed_slot (cap : Nat) (ops : List Op) (s s' : Sys) (os : List Obs) (g : Nat)
+    (wk : Option WakerId) (saw : Option (Nat × Bool)) (hr : run (init cap) ops = some (s, os))
+    (hs : step s (.drop g) = some (s', .dropped wk saw)) :
+    saw = wk.bind (fun w => if inlineWaker w then some (cap - 1, true) else none) ∧
+    (∀ n b, saw = some (n, b) → n < cap ∧ n = s'.guards.length ∧ b = true) ∧
+    (wk.isSome → s'.ctr.task.waker = none) := by
+  obtain ⟨h1, h2, _, h4⟩ := rel_reach hr
+  simp only [step] at hs; split at hs
+  · rename_i hg
+    have hpos : 0 < s.ctr.count := by rw [h2]; exact List.length_pos_of_mem hg
+    have hl : (s.guards.erase g).length = s.guards.length - 1 := List.length_erase_of_mem hg
+    simp only [Option.some.injEq, Prod.mk.injEq, Obs.dropped.injEq] at hs
+    obtain ⟨hs', hw, hsaw⟩ := hs; subst hs'; subst hw; subst hsaw
+    rw [release_eq _ hpos, dec_eq]
+    by_cases hc : s.ctr.count = s.ctr.capacity
+    · simp only [hc, if_true]
+      have hcap : s.guards.length = cap := by omega
+      refine ⟨by simp [h1], ?_, by simp⟩
+      intro n b hnb
+      cases hw : s.ctr.task.waker with
+      | none => simp [hw] at hnb
+      | some w =>
+        simp only [hw, Option.bind_some] at hnb
+        by_cases hi : inlineWaker w = true
+        · simp only [hi, if_true, Option.some.injEq, Prod.mk.injEq] at hnb
+          obtain ⟨hn, hb⟩ := hnb
+          refine ⟨by omega, ?_, hb.symm⟩
+          simp only [hl]; omega
+        · simp [hi] at hnb
+    · simp [hc]
+  · simp at hs
+
+example : (run (init 1) [.acquire 0, .available 0 4, .drop 0, .total 0]).map (·.2) =
+    some [.guard 0, .avail false, .dropped (some 4) (some (0, true)), .total 0] := by decide
+example : (run (init 2) [.acquire 0, .acquire 0, .acquire 0, .available 0 5, .drop 2, .drop 0, .available 0 1]).map (·.2) =
+    some [.guard 0, .guard 1, .guard 2, .avail false, .dropped none none, .dropped (some 5) (some (1, true)), .avail true] := by decide
+
+/-- **Nobody is left parked below the capacity**: in every reachable state, if a waker is still
+registered (answered "unavailable" and not woken since) then at least `cap` guards are alive — so the
+drop that takes the count to `cap - 1` is still to come and will wake it (`release_wakes`). -/
+theorem no_task_parked_below_capacity (cap : Nat) (ops : List Op) (s : Sys) (os : List Obs) (w : WakerId)
+    (hr : run (init cap) ops = some (s, os)) (hp : s.ctr.task.waker = some w) : cap ≤ s.guards.length := by
+  obtain ⟨h1, h2, _, _⟩ := rel_reach hr
+  have := parkedOk_reach hr w hp
+  omega
+
+example : ((run (init 1) [.acquire 0, .acquire 0, .available 0 4, .drop 1]).map (·.1.ctr.task.waker)) = some (some 4) := by decide
+example : ((run (init 1) [.acquire 0, .acquire 0, .available 0 4, .drop 1, .drop 0]).map (·.1.ctr.task.waker)) = some none := by decide
 
 /-- `LocalWaker::register` reports whether a waker was already registered, i.e. whether the previous
 operation on the cell was a `register` -/
